@@ -11,14 +11,29 @@
 From GS Require Import Base.Bytes Model.Lexer.
 Local Open Scope N_scope.
 
-(* [acc] = bytes of the current line read so far, reversed *)
-Fixpoint lines_from (acc : str) (msg : str) : list str :=
+(* the message cut at every newline: the first segment and the list of the following ones
+   ("a\nb\n" gives ("a", ["b"; ""])) *)
+Fixpoint split_nl (msg : str) : str * list str :=
   match msg with
-  | [] => match acc with [] => [] | _ => [rev acc] end
-  | b :: r => if b =? c_nl then rev acc :: lines_from [] r else lines_from (b :: acc) r
+  | [] => ([], [])
+  | b :: r =>
+      let '(cur, rest) := split_nl r in
+      if b =? c_nl then ([], cur :: rest) else (b :: cur, rest)
   end.
 
-Definition lines (msg : str) : list str := lines_from [] msg.
+(* the final segment is a line only if it is not empty *)
+Fixpoint drop_empty_last (segs : list str) : list str :=
+  match segs with
+  | [] => []
+  | s :: r =>
+      match r with
+      | [] => match s with [] => [] | _ => [s] end
+      | _ => s :: drop_empty_last r
+      end
+  end.
+
+Definition lines (msg : str) : list str :=
+  let '(cur, rest) := split_nl msg in drop_empty_last (cur :: rest).
 
 Inductive dresult :=
 | DCounts (metrics events bad : N)
@@ -51,9 +66,17 @@ Fixpoint count_nl (msg : str) : N :=
   | b :: r => (if b =? c_nl then 1 else 0) + count_nl r
   end.
 
-(* does the message end in a non-empty segment without newline? *)
-Definition open_tail (msg : str) : bool :=
-  match rev msg with
+(* does the message end in a non-empty segment without newline, i.e. is its last byte
+   something else than a newline? *)
+Fixpoint open_tail (msg : str) : bool :=
+  match msg with
   | [] => false
-  | b :: _ => negb (b =? c_nl)
+  | b :: r => match r with [] => negb (b =? c_nl) | _ => open_tail r end
   end.
+
+(* classification of lexer outcomes, to state which counter a line goes to *)
+Definition is_metric (o : outcome) : bool := match o with OMetric _ => true | _ => false end.
+Definition is_event (o : outcome) : bool := match o with OEvent _ => true | _ => false end.
+Definition is_reject (o : outcome) : bool := match o with OReject _ => true | _ => false end.
+
+Definition count_where {A} (p : A -> bool) (l : list A) : N := N.of_nat (length (filter p l)).
